@@ -1,0 +1,15 @@
+//go:build verif
+
+package promapi
+
+import "sync/atomic"
+
+// VerifTraceFn, when set, receives every traced step of the request path (lock, unlock, take, hit, miss,
+// unsupported, send, respok, resperr, set) in the order the steps happen.
+var VerifTraceFn atomic.Pointer[func(ev, id string, key uint64)]
+
+func verifTrace(ev, id string, key uint64) {
+	if f := VerifTraceFn.Load(); f != nil {
+		(*f)(ev, id, key)
+	}
+}
